@@ -90,9 +90,19 @@ Proof. vm_compute. reflexivity. Qed.
 
 (* the run interface on a tiny case (the first doc-style frame) *)
 Example ex_run_check :
-  check (ECase 0 1 2 0 1065353216 1065353216 0 [EFrame [-127]; EFrame [-100]],
+  check (ECase 0 1 2 0 1065353216 1065353216 0 0 [EFrame [-127]; EFrame [-100]],
          [[22; 1052531378; 1052531378; 1052531378; 1052531378]; [20; -81; -127]; [20; -94; -100]]) = true.
 Proof. vm_compute. reflexivity. Qed.
+
+(* the same detector constructed by Detector::peak_from_rectifier(NegativeHalfWave, ..) (ctor 1) and cloned
+   between the two frames; and the check REJECTS an observation in which the constructor used another
+   rectifier (positive half wave: detected 0 instead of -127) *)
+Example ex_run_check_ctor :
+  check (ECase 0 1 2 0 1065353216 1065353216 0 1 [EFrame [-127]; EClone; EFrame [-100]],
+         [[22; 1052531378; 1052531378; 1052531378; 1052531378]; [20; -81; -127]; [26]; [20; -94; -100]]) = true /\
+  check (ECase 0 1 2 0 1065353216 1065353216 0 1 [EFrame [-127]],
+         [[22; 1052531378; 1052531378; 1052531378; 1052531378]; [20; 0; 0]]) = false.
+Proof. vm_compute. split; reflexivity. Qed.
 
 (* the integer run theorem applies to a concrete history (negative half wave, i8, two channels,
    rising then falling, no sample at the minimum) and the run is the expected one *)
